@@ -750,3 +750,52 @@ pub fn run_long_writes(tokio: bool, compressed: bool) -> Result<u64, String> {
     if s.pos != n * frame.len() as u64 { return Err(format!("{} bytes reached the transport where {} writes of {} bytes returned", s.pos, n, frame.len())); }
     Ok(n)
 }
+
+
+// ---------------------------------------------------------------------------------------------
+// A stall in the MIDDLE of a frame longer than any counter of 16 bits: the transport accepts 5 bytes, answers "not
+// ready" 70 000 times, then takes the rest - and the same stall in front of the next frame.
+
+#[derive(Debug)]
+struct Staller { first: usize, stalls_left: u32, taken: usize, phase: u8, out: std::sync::Arc<std::sync::Mutex<Vec<u8>>> }
+impl Staller {
+    fn answer(&mut self, buf: &[u8]) -> Option<usize> {
+        match self.phase {
+            0 => { self.phase = 1; let n = self.first.min(buf.len()); self.out.lock().unwrap().extend_from_slice(&buf[..n]); Some(n) },
+            1 => { if self.stalls_left > 0 { self.stalls_left -= 1; None } else { self.phase = 2; let _ = self.taken; self.out.lock().unwrap().extend_from_slice(buf); Some(buf.len()) } },
+            _ => { self.out.lock().unwrap().extend_from_slice(buf); Some(buf.len()) },
+        }
+    }
+}
+impl io::Read for Staller { fn read(&mut self, _b: &mut [u8]) -> io::Result<usize> { Ok(0) } }
+impl io::Write for Staller {
+    fn write(&mut self, buf: &[u8]) -> io::Result<usize> { match self.answer(buf) { Some(n) => Ok(n), None => Err(io::Error::new(io::ErrorKind::Interrupted, "verif: not ready")) } }
+    fn flush(&mut self) -> io::Result<()> { Ok(()) }
+}
+impl AsyncRead for Staller { fn poll_read(self: Pin<&mut Self>, _cx: &mut Context<'_>, _b: &mut ReadBuf<'_>) -> Poll<io::Result<()>> { Poll::Ready(Ok(())) } }
+impl AsyncWrite for Staller {
+    fn poll_write(mut self: Pin<&mut Self>, cx: &mut Context<'_>, buf: &[u8]) -> Poll<io::Result<usize>> { match self.answer(buf) { Some(n) => Poll::Ready(Ok(n)), None => { cx.waker().wake_by_ref(); Poll::Pending } } }
+    fn poll_flush(self: Pin<&mut Self>, _cx: &mut Context<'_>) -> Poll<io::Result<()>> { Poll::Ready(Ok(())) }
+    fn poll_shutdown(self: Pin<&mut Self>, _cx: &mut Context<'_>) -> Poll<io::Result<()>> { Poll::Ready(Ok(())) }
+}
+pub fn run_stall(tokio: bool, compressed: bool) -> Result<(), String> {
+    let codec = Codec::new(mode_of(compressed));
+    let c = cycle(compressed);
+    let ps = vec![c[5].clone(), c[1].clone(), c[3].clone()];
+    let mut want = vec![];
+    for p in &ps { want.extend_from_slice(&codec.encode(p).map_err(|e| format!("MACHINERY encode {e:?}"))?); }
+    let out = std::sync::Arc::new(std::sync::Mutex::new(Vec::<u8>::new()));
+    let t = Staller { first: 5, stalls_left: 70_000, taken: 0, phase: 0, out: out.clone() };
+    let results: Vec<Result<(), String>> = if tokio {
+        let rt = tokio::runtime::Builder::new_current_thread().enable_time().start_paused(true).build().map_err(|e| format!("MACHINERY {e}"))?;
+        let mut framed = insim::net::tokio_impl::Framed::new(Box::new(t), Codec::new(mode_of(compressed)));
+        rt.block_on(async { let mut v = vec![]; for p in &ps { v.push(framed.write(p.clone()).await.map_err(|e| e.to_string())); } v })
+    } else {
+        let mut framed = insim::net::blocking_impl::Framed::new(Box::new(t), Codec::new(mode_of(compressed)));
+        ps.iter().map(|p| framed.write(p.clone()).map_err(|e| e.to_string())).collect()
+    };
+    for (i, r) in results.iter().enumerate() { if let Err(e) = r { return Err(format!("write #{i} returned {e} although the transport never failed")); } }
+    let got = out.lock().unwrap();
+    if *got != want { return Err(format!("the transport received {} bytes where the three frames are {} bytes", got.len(), want.len())); }
+    Ok(())
+}
